@@ -557,6 +557,26 @@ func (d *Drv) Probes() {
 	pb2.PushOpCode(neovm.CHECKSIG)
 	pl2 := &Plan{U: d.RandUnsigned(), Sets: []*SetPlan{{Keys: []*Key{w}, M: 1, Signers: []*Key{w}, Script: pb2.Finish()}}}
 	d.One("uncompressed-key", pl2, "accept")
+	// (c), (d) the multi-signature analogues: the key that makes the library panic comes FIRST in a
+	// 1-of-2 script as written, the panicking blob is the only signature
+	g := d.KindKey("ecdsa-p384", 0)
+	{
+		sers := [][]byte{k.Ser, g.Ser}
+		pl := &Plan{U: d.RandUnsigned(), Sets: []*SetPlan{{Keys: []*Key{k, g}, M: 1, Signers: []*Key{k}, Script: RawMultiScript(1, sers, 2)}}}
+		b := d.Assemble(pl)
+		b.Sigs[0][0] = b.Sigs[0][0][:10]
+		b.encode()
+		d.DoTx(Input{Kind: "probe:multisig-eth-key-short-signature", Expect: "reject"}, b.Raw, b.AllKeys())
+	}
+	{
+		forged := parseKey(ser)
+		sers := [][]byte{ser, g.Ser}
+		pl := &Plan{U: d.RandUnsigned(), Sets: []*SetPlan{{Keys: []*Key{forged, g}, M: 1, Signers: []*Key{g}, Script: RawMultiScript(1, sers, 2)}}}
+		b := d.Assemble(pl)
+		b.Sigs[0] = [][]byte{d.foreignBlob(w.Curve, b.Hash)}
+		b.encode()
+		d.DoTx(Input{Kind: "probe:multisig-off-curve-key", Expect: "reject"}, b.Raw, append(b.AllKeys(), w))
+	}
 }
 
 func (d *Drv) eip155() {
